@@ -112,6 +112,17 @@ CLAIMED = {
         note=TRUST + " `kcuts_sep` needs 0 < k (k = 0 is known finding K26). fanin/fanout_depth(maximum=False) is covered by "
              "correspondence only.",
         ref="§4 C12"),
+    "C10": dict(
+        technique="Lean 4 theorems (per-gate Kleene algebra for every arity, name-disjointness of companion and helper names, "
+                  "loop invariant of the encoder) about a line-by-line model of tx.ternary + exact structural correspondence "
+                  "+ exhaustive 3^k search",
+        text="Proof: `ternary_ok` (the encoder succeeds on every good circuit, every order), `ternary_contains_c`, "
+             "`ternary_kleene` (for every consistent valuation of the encoded circuit, mapping[n] is 1 exactly when gate-by-gate "
+             "Kleene evaluation gives X at n, otherwise n carries the Kleene value), `kleene_definite`, `ternary_definite` (then "
+             "n equals its value under every completion of the X inputs), `ternary_rejects_blackboxes` — all circuits, arities, "
+             "names and orders; the type->branch table is extracted from tx.py on every run.",
+        note=TRUST + " Hypothesis `Good`: lint-clean, blackbox-free, no `x`, acyclic, names that `add` accepts.",
+        ref="§4 C10"),
 }
 
 NOT_YET = "check not built yet in this round (see DESIGN.md §4 for the plan); will be claimed when its Lean model and harness exist"
